@@ -106,6 +106,35 @@ CLAIMED.update({
         technique="Lean 4 parametric proofs + decide +kernel over the whole table + exhaustive short-string correspondence"),
 })
 
+CLAIMED.update({
+    "C01": dict(
+        text=("Model of the parser as it is written (eight states, twelve offsets, every slice a possible panic, "
+              "recursive group parsing with fuel) in Lean; abstract syntax, rendering and denotation of the "
+              "documented grammar as the specification; theorems listed in Props/C01.lean.  Tied to the code by "
+              "running every table key, every token adjacency of the state machine, random nested formulas and "
+              "2000-deep nesting through all eight public entry points, the model and a table-driven grammar oracle."),
+        design_ref="§7.1",
+        note=NOTE_COMMON + " Counts are unbounded integers (overflow excluded by the property). Partial: see Props/C01.lean for which statements are proved for all ASTs and which rest on the correspondence.",
+        technique="Lean 4 model of the state machine + structural proofs over the grammar AST + differential correspondence with a grammar oracle"),
+    "C05": dict(
+        text=("Totality: the Lean model makes every slice, lookup and number parse an explicit outcome; theorems in "
+              "Props/C05.lean show no reachable panic.  Correspondence: ALL strings up to length 4 (quick) / 5-7 "
+              "(thorough) over an 18-class alphabet, mutations of valid formulas, random long strings, deep and "
+              "unbalanced nesting, in a child process with a stall watchdog; a composition may be returned only when "
+              "the independent grammar oracle accepts (or leaves unspecified: `[]`, `[0]`)."),
+        design_ref="§7.5",
+        note=NOTE_COMMON + " Partial (runtime): stack exhaustion and aborts are observed on the child process, not proved.",
+        technique="Lean 4 panic-freedom proof of the parser model + exhaustive short-string differential correspondence"),
+    "C07": dict(
+        text=("Model of to_formula (C, H, then entries sorted by symbol and isotope) and of every FromStr; theorems in "
+              "Props/C07.lean.  Correspondence: Display on all four forms and permuted insertion orders must be "
+              "identical for equal compositions, parse back (all entry points) and serde JSON (Vec, Map, "
+              "ElementSpecification) must return the same entries, and the text must equal the model's."),
+        design_ref="§7.7",
+        note=NOTE_COMMON + " One recorded known finding: the table key e* renders as text outside the grammar.",
+        technique="Lean 4 model + canonical-order proofs + differential round-trip correspondence"),
+})
+
 PENDING_REASON = "check not built yet in this session; no claim is made until its model, theorems and correspondence run exist"
 
 
